@@ -51,7 +51,8 @@ def gen(rnd, zone, tier):
     nows += [int(D.datetime(y, m, d, rnd.randrange(24), rnd.randrange(60), tzinfo=tz).timestamp())
              for (y, m, d) in (rnd.sample(edges, 4) if tier == "quick" else edges)]
     nows += world.interesting_instants(rnd, zone, 3 if tier == "quick" else 14)
-    nows += [rnd.randrange(2 ** 31, 2 ** 32 - 2 * 86400) for _ in range(2 if tier == "quick" else 8)] + [2 ** 31 + rnd.randrange(-40000, 40000)]   # 2038 .. 2106
+    if not world.has_rule_after_table(zone):          # 2038 .. 2106, where the zone's table (the model's input) still says everything
+        nows += [rnd.randrange(2 ** 31, 2 ** 32 - 2 * 86400) for _ in range(2 if tier == "quick" else 8)] + [2 ** 31 + rnd.randrange(-40000, 40000)]
     for now in nows:
         minutes = set(range(0, 1440, 15)) if tier == "quick" else set(range(1440))
         for t in tr:
